@@ -9,6 +9,8 @@
 (* to Depth commands and printed as one JSON line.                            *)
 EXTENDS MuxPool, Sequences, Json
 CONSTANTS Depth,
+          MaxHeal, \* how often the environment may turn benign until the pool is full again (Heal): a kill followed by a Heal is
+                   \* "an older session dies while newer ones live and the slot is refilled"
           AddGate, \* TRUE: the hand-over to the manager (PAdd) is an environment command "Add": the harness parks the provider
                    \* at the hook point mux.provider.beforeAdd (provider.go, build tag verif), so that PeerClose of the
                    \* attempt's session, kills of other sessions and Cancel are scheduled BETWEEN the successful Ping and
@@ -19,7 +21,7 @@ CONSTANTS Depth,
 VARIABLES hist, healing, healed
 sv == <<hist, healing, healed>>
 Cmd(r) == hist' = Append(hist, r)
-SimInit == Init /\ hist = <<>> /\ healing = FALSE /\ healed = FALSE
+SimInit == Init /\ hist = <<>> /\ healing = FALSE /\ healed = 0
 Benign == DialOk \/ SessOk \/ PingOk \/ (AddGate /\ PAdd)
 Eager == IF AddGate THEN InternalButAdd ELSE Internal
 EnvStep ==
@@ -33,8 +35,9 @@ EnvStep ==
   \/ (\E c \in Conn : PeerClose(c) /\ Cmd([a |-> "PeerClose", c |-> c]))
   \/ (\E c \in Conn : LocalClose(c) /\ Cmd([a |-> "LocalClose", c |-> c]))
   \/ (Cancel /\ Cmd([a |-> "Cancel", c |-> 0]))
-HealStart == /\ ~Loop /\ running /\ ~healing /\ ~healed /\ ppc \in {"conn", "acq"} /\ nextId + N <= MaxConn
-             /\ healing' = TRUE /\ healed' = TRUE /\ Cmd([a |-> "Heal", c |-> 0]) /\ UNCHANGED vars
+HealStart == /\ ~Loop /\ running /\ ~healing /\ healed < MaxHeal /\ ppc \in {"conn", "acq"} /\ nextId + N <= MaxConn
+             /\ (IF Len(hist) = 0 THEN TRUE ELSE hist[Len(hist)].a # "Heal")
+             /\ healing' = TRUE /\ healed' = healed + 1 /\ Cmd([a |-> "Heal", c |-> 0]) /\ UNCHANGED vars
 Pad == ~ENABLED EnvStep /\ ~ENABLED HealStart /\ Cmd([a |-> "Pad", c |-> 0]) /\ UNCHANGED <<vars, healing, healed>>
 SimNext ==
   /\ Len(hist) < Depth
